@@ -538,7 +538,8 @@ cdef class QobjEvo:
             if other._dims != self._dims:
                 raise TypeError("incompatible dimensions" +
                                 str(self.dims) + ", " + str(other.dims))
-            for element in (<QobjEvo> other).elements:
+            # `list(...)`: `other` can be `self` (`A += A`).
+            for element in list((<QobjEvo> other).elements):
                 self.elements.append(element)
             self._update_feedback(other)
 
